@@ -2,7 +2,7 @@
     Property theorems only, about the per-window methods REGENERATED from the source (Gen/GenScalars.v;
     translation validated by correspondence K5).  [eql] = elementwise equality of rationals. *)
 From Coq Require Import QArith Qabs List Bool String.
-From IV Require Import QL Dist Ecdf QListFacts GenUtils GenScalars RatLS C16_compose C03_proofs C02_proofs C04_proofs C01_proofs C09_proofs RatLS_proofs Affine Affine_debiasers Driver Driver_rel ApplyLocation_units ApplyLocation_param IsimipStep5 IsimipStep5_proofs SDM SDM_units.
+From IV Require Import QL Dist Ecdf QListFacts GenUtils GenScalars RatLS C16_compose C03_proofs C02_proofs C04_proofs C01_proofs C09_proofs RatLS_proofs Affine Affine_debiasers Driver Driver_rel ApplyLocation_units ApplyLocation_param IsimipStep5 IsimipStep5_proofs SDM SDM_units IsimipStep3 IsimipStep5 IsimipWindow IsimipWindow_units.
 Import ListNotations.
 Open Scope Q_scope.
 
@@ -212,3 +212,32 @@ Theorem C04_qdm_apply_location : forall (P : Type) (D : dist P) a b, 0 < a -> fo
                                              (Driver.driver_rw Q L S dobs dhist dfut obs' hist' fut' (W_qdm_fit D em tq cth)).
 Proof. intros P D a b Ha good Hf em tq cth Hem. exact (qdm_apply_location_unit_change D a b Ha good Hf em tq cth Hem). Qed.
 Print Assumptions C04_qdm_apply_location.
+
+(** ISIMIP's window pipeline for an unbounded additive variable (Model/IsimipWindow.v, correspondence K22): expressing
+    obs, cm_hist and cm_future in another unit (x -> a x + b, a > 0; years and significance decisions unchanged)
+    changes every debiased value of the window by the same map — the annual means, the least-squares slope (times a),
+    the centred trend (times a), the pseudo future observations, the fitted distributions and the restored trend all
+    follow — for any distribution with fit_unit_change D a b, e.g. the rational family *)
+Theorem C04_isimip_window_unit_change : forall (a b : Q), 0 < a -> forall (P : Type) (D : dist P) (good : list Q -> Prop),
+  fit_unit_change D a b good -> (forall l, good l -> l <> []) ->
+  forall em im thr, em = step_function \/ em = linear_interpolation ->
+  forall so sh sf yo yh yf obs obs' hist hist' fut fut',
+  yo <> [] -> yh <> [] -> yf <> [] -> List.length obs = List.length yo -> List.length hist = List.length yh -> List.length fut = List.length yf ->
+  step3_remove so yo obs <> [] -> step3_remove sh yh hist <> [] ->
+  good (step3_remove sf yf fut) ->
+  good (step5 TAdditive em im 0 0 (step3_remove so yo obs) (step3_remove sh yh hist) (step3_remove sf yf fut)) ->
+  ARL a b obs obs' -> ARL a b hist hist' -> ARL a b fut fut' ->
+  ARL a b (isimip_window D em im thr so sh sf yo yh yf obs hist fut) (isimip_window D em im thr so sh sf yo yh yf obs' hist' fut').
+Proof. intros a b Ha P D good H1 H2 em im thr H3. exact (isimip_window_unit_change a b Ha D good H1 H2 em im thr H3). Qed.
+Print Assumptions C04_isimip_window_unit_change.
+
+Theorem C04_isimip_window_unit_change_ratls : forall a b em im thr so sh sf yo yh yf obs obs' hist hist' fut fut',
+  0 < a -> em = step_function \/ em = linear_interpolation ->
+  yo <> [] -> yh <> [] -> yf <> [] -> List.length obs = List.length yo -> List.length hist = List.length yh -> List.length fut = List.length yf ->
+  step3_remove so yo obs <> [] -> step3_remove sh yh hist <> [] ->
+  ratls_good (step3_remove sf yf fut) ->
+  ratls_good (step5 TAdditive em im 0 0 (step3_remove so yo obs) (step3_remove sh yh hist) (step3_remove sf yf fut)) ->
+  ARL a b obs obs' -> ARL a b hist hist' -> ARL a b fut fut' ->
+  ARL a b (isimip_window ratls em im thr so sh sf yo yh yf obs hist fut) (isimip_window ratls em im thr so sh sf yo yh yf obs' hist' fut').
+Proof. exact isimip_window_unit_change_ratls. Qed.
+Print Assumptions C04_isimip_window_unit_change_ratls.
